@@ -2,9 +2,6 @@ package client
 
 import (
 	"sync"
-	"time"
-
-	"github.com/smallnest/rpcx/log"
 )
 
 // MultipleServersDiscovery is a multiple servers service discovery.
@@ -73,17 +70,7 @@ func (d *MultipleServersDiscovery) Update(pairs []*KVPair) {
 	defer d.mu.Unlock()
 
 	for _, ch := range d.chans {
-		ch := ch
-		go func() {
-			defer func() {
-				recover()
-			}()
-			select {
-			case ch <- pairs:
-			case <-time.After(time.Minute):
-				log.Warn("chan is full and new change has been dropped")
-			}
-		}()
+		notifyWatcher(ch, pairs)
 	}
 
 	d.pairsMu.Lock()
